@@ -13,6 +13,7 @@
 
 #ifdef ROOTSIM_VERIF
 #include <stdint.h>
+#include <string.h>
 
 /// Scheduling point identifiers passed to verif_yield()
 enum verif_point {
@@ -54,8 +55,18 @@ enum verif_kind {
 	VK_SEND_REMOTE,    ///< a=msg, b=sender lp
 	VK_SILENT,         ///< a=lp, b=index
 	VK_ANTI_DISCARD,   ///< a=msg, b=previous flags (anti-message consumed without rollback)
-	VK_EARLY_ANTI      ///< a=msg
+	VK_EARLY_ANTI,     ///< a=msg
+	VK_ROLLBACK_DONE,  ///< a=lp, b=past_i (after coasting forward)
+	VK_EARLY_MATCH     ///< a=msg, b=matching early anti-message
 };
+
+/// The bit pattern of a double, for tracing time stamps
+static inline uint64_t verif_dbits(double d)
+{
+	uint64_t u;
+	memcpy(&u, &d, sizeof(u));
+	return u;
+}
 
 extern void verif_yield(unsigned point);
 extern void verif_trace(unsigned kind, uint64_t a, uint64_t b, uint64_t c);
